@@ -30,6 +30,16 @@ MFDC_OO = CYC_OO + [{"optimize_with_guessed_weights": True}, {"use_min_gen_set_l
 
 def gen_cases(tier, seed):
     cases = []
+    # corpus: int weights requested, only IGNORED edges carry non-integer values, two constraints force two paths through the only trusted edge
+    for gv in ((2.5, 8.5), (0.5, 10.5), (3, 8)):
+        ce = [("s", "a", 11), ("a", "b", gv[0]), ("b", "t", gv[0]), ("a", "c", gv[1]), ("c", "t", gv[1])]
+        sp = gen.spec(["s", "a", "b", "c", "t"], [(u, v) for u, v, _ in ce], eattr={(u, v): {"flow": f} for u, v, f in ce})
+        ig = [["a", "b"], ["b", "t"], ["a", "c"], ["c", "t"]]
+        for oo in ({"optimize_with_guessed_weights": True}, {}, {"optimize_with_guessed_weights": True, "use_min_gen_set_lowerbound": True}):
+            cases.append({"inst": {"cls": "MinFlowDecomp", "spec": sp, "kw": {"flow_attr": "flow", "weight_type": "int", "elements_to_ignore": ig,
+                                   "subpath_constraints": [[["a", "b"]], [["a", "c"]]], "optimization_options": dict(oo)}}, "mode": "edge", "planted": 2, "ignore": ig})
+            cases.append({"inst": {"cls": "MinFlowDecompCycles", "spec": sp, "kw": {"flow_attr": "flow", "weight_type": "int", "elements_to_ignore": ig,
+                                   "subset_constraints": [[["a", "b"]], [["a", "c"]]], "optimization_options": dict(oo)}}, "mode": "edge", "planted": 2, "ignore": ig})
     n = 600 if tier == "quick" else 6000
     for i in range(n):
         rng = gen.rng_for("C02", seed, i)
@@ -86,7 +96,8 @@ def gen_cases(tier, seed):
             for e in ign:
                 g = rng.choice(["keep", "garbage", "missing", "zero"])
                 if g == "garbage":
-                    garbage[e] = 41 if wt == "int" else 41.5
+                    # (an ignored element may carry any value at all, also a non-integer one while int weights are requested)
+                    garbage[e] = rng.choice([41, 2.5, 8.5]) if wt == "int" else 41.5
                 elif g == "missing":
                     drop.append(e)
                 elif g == "zero":
